@@ -22,6 +22,9 @@ type Plan struct {
 	FailWriteAt  int // index (1-based) of the write event that fails; 0 = none
 	FailCommitAt int // index (1-based) of the commit event that fails; 0 = none
 	FailReadAt   int // index (1-based) of the read (Get/Has) that fails; 0 = none
+	// FailReadMatch, when set, makes the first read (Get/Has) of a key it accepts fail, once; the
+	// harness clears it (structure-aware read faults: "the first read of bucket X in this operation").
+	FailReadMatch func(key []byte) bool
 	// AfterCommit is called after commit k has been applied to the inner store.
 	AfterCommit func(k int)
 	// BeforeCommit is called before commit k is applied (it may park a scheduler).
@@ -67,7 +70,9 @@ func (d *DB) writeEvent() error {
 	return nil
 }
 
-func (d *DB) readEvent() error {
+func (d *DB) readEvent() error { return d.readEventKey(nil) }
+
+func (d *DB) readEventKey(key []byte) error {
 	if d.Dead {
 		return ErrDead
 	}
@@ -75,6 +80,11 @@ func (d *DB) readEvent() error {
 		return nil
 	}
 	d.Reads++
+	if key != nil && d.Plan.FailReadMatch != nil && d.Plan.FailReadMatch(key) {
+		d.Plan.FailReadMatch = nil
+		d.Fired = append(d.Fired, "read_error")
+		return ErrInjected
+	}
 	if d.Plan.BeforeRead != nil {
 		d.Plan.BeforeRead("get")
 	}
@@ -115,14 +125,14 @@ func (d *DB) commit(apply func() error) error {
 }
 
 func (d *DB) Has(key []byte) (bool, error) {
-	if err := d.readEvent(); err != nil {
+	if err := d.readEventKey(key); err != nil {
 		return false, err
 	}
 	return d.Inner.Has(key)
 }
 
 func (d *DB) Get(key []byte, cb func([]byte) error) error {
-	if err := d.readEvent(); err != nil {
+	if err := d.readEventKey(key); err != nil {
 		return err
 	}
 	err := d.Inner.Get(key, cb)
@@ -269,14 +279,14 @@ func (b *ibatch) Size() int    { return b.ib.Size() }
 func (b *ibatch) Close() error { return b.ib.Close() }
 func (b *ibatch) Write() error { return b.d.commit(b.ib.Write) }
 func (b *ibatch) Has(k []byte) (bool, error) {
-	if err := b.d.readEvent(); err != nil {
+	if err := b.d.readEventKey(k); err != nil {
 		return false, err
 	}
 	return b.ib.Has(k)
 }
 
 func (b *ibatch) Get(k []byte, cb func([]byte) error) error {
-	if err := b.d.readEvent(); err != nil {
+	if err := b.d.readEventKey(k); err != nil {
 		return err
 	}
 	err := b.ib.Get(k, cb)
